@@ -43,6 +43,8 @@ type c16Case struct {
 	lit   string // the literal as written, with quotes
 	bytes string // what it denotes
 	label string
+	lo    int // near misses only substitute positions lo <= pos < hi of bytes (hi == 0: to the end)
+	hi    int
 }
 
 func C16(r *drv.Run) {
@@ -51,15 +53,15 @@ func C16(r *drv.Run) {
 	if !quick(r) {
 		nrand = 400000
 	}
-	r.Rule = "exhaustive: every byte 0x01..0x7f in every spelling it has (raw, backslash+char, named escape, \\xHH, \\xhh) in both quote styles, alone, embedded between two other bytes, and as every ordered pair of 22 special bytes (CR, LF, tab, blank, both quotes, backslash, x, hex digits, controls, punctuation) in every combination of spellings; malformed \\x followed by 0, 1 or 2 hex digits and EVERY two-character continuation over 0x01..0x7f (control bytes included) that is not a hex pair (must keep all following characters); every backslash+char spelling followed by raw hex digits (stays that character and the digits); every keyword of the language (both letter cases) and phrases such as `caseless #`, `0 to 9`, `WS` as a string item of an `in` list behind a class, a range, a caseless item and another string; seeded random ASCII strings (length 1..8) with a random spelling per byte; a third of all cases compiled right after near-duplicates of themselves (blank runs doubled or halved, letters in the other case) in the same process. The harness composes the denoted bytes b and the spelling, so it knows both. Oracle: `find all <literal>` on b reports exactly [0,len b); on every one-byte substitution of b (neighbour values, case flip, 3 random bytes per position) it reports nothing of that span. Non-trivial = every distinct literal spelling verified on b and on its near misses."
+	r.Rule = "exhaustive: every byte 0x01..0x7f in every spelling it has (raw, backslash+char, named escape, \\xHH, \\xhh) in both quote styles, alone, embedded between two other bytes, and as every ordered pair of 22 special bytes (CR, LF, tab, blank, both quotes, backslash, x, hex digits, controls, punctuation) in every combination of spellings; malformed \\x followed by 0, 1 or 2 hex digits and EVERY two-character continuation over 0x01..0x7f (control bytes included) that is not a hex pair (must keep all following characters); every backslash+char spelling followed by raw hex digits (stays that character and the digits); every keyword of the language (both letter cases) and phrases such as `caseless #`, `0 to 9`, `WS` as a string item of an `in` list behind a class, a range, a caseless item and another string; every letter in every spelling inside a group directly before and after a caseless literal (the other case must not match); seeded random ASCII strings (length 1..8) with a random spelling per byte; a third of all cases compiled right after near-duplicates of themselves (blank runs doubled or halved, letters in the other case) in the same process. The harness composes the denoted bytes b and the spelling, so it knows both. Oracle: `find all <literal>` on b reports exactly [0,len b); on every one-byte substitution of b (neighbour values, case flip, 3 random bytes per position) it reports nothing of that span. Non-trivial = every distinct literal spelling verified on b and on its near misses."
 	r.Assumptions = []string{"ASCII bytes 0x01..0x7f only, as the property says (the lexer writes \\x80..\\xff as two-byte runes)"}
 	var cases []c16Case
 	for _, q := range []byte{'\'', '"'} {
 		for c := byte(1); c < 0x80; c++ {
 			for name, sp := range spellings(c, q) {
-				cases = append(cases, c16Case{string(q) + sp + string(q), string([]byte{c}), "single:" + name})
+				cases = append(cases, c16Case{lit: string(q) + sp + string(q), bytes: string([]byte{c}), label: "single:" + name})
 				// embedded; a raw hex digit must not directly follow a \x escape of fewer digits (none here: always 2)
-				cases = append(cases, c16Case{string(q) + "k" + sp + "z" + string(q), "k" + string([]byte{c}) + "z", "embedded:" + name})
+				cases = append(cases, c16Case{lit: string(q) + "k" + sp + "z" + string(q), bytes: "k" + string([]byte{c}) + "z", label: "embedded:" + name})
 			}
 		}
 		// every ordered pair of "interesting" bytes in every combination of spellings: what one byte's
@@ -69,7 +71,7 @@ func C16(r *drv.Run) {
 			for _, c2 := range special {
 				for n1, s1 := range spellings(c1, q) {
 					for n2, s2 := range spellings(c2, q) {
-						cases = append(cases, c16Case{string(q) + s1 + s2 + string(q), string([]byte{c1, c2}), "pair:" + n1 + "+" + n2})
+						cases = append(cases, c16Case{lit: string(q) + s1 + s2 + string(q), bytes: string([]byte{c1, c2}), label: "pair:" + n1 + "+" + n2})
 					}
 				}
 			}
@@ -88,7 +90,7 @@ func C16(r *drv.Run) {
 				if _, ok := spellings(c2, q)["raw"]; !ok {
 					continue
 				}
-				cases = append(cases, c16Case{string(q) + "\\x" + string([]byte{c1, c2}) + string(q), "x" + string([]byte{c1, c2}), "malformed-hex-pair"})
+				cases = append(cases, c16Case{lit: string(q) + "\\x" + string([]byte{c1, c2}) + string(q), bytes: "x" + string([]byte{c1, c2}), label: "malformed-hex-pair"})
 			}
 		}
 		// a backslash before any other character means that character, whatever follows: two raw hex digits after it
@@ -99,7 +101,7 @@ func C16(r *drv.Run) {
 				continue
 			}
 			for _, hx := range []string{"41", "6a", "FF", "0g", "7"} {
-				cases = append(cases, c16Case{string(q) + sp + hx + string(q), string([]byte{c}) + hx, "backslash-char-then-hex-digits"})
+				cases = append(cases, c16Case{lit: string(q) + sp + hx + string(q), bytes: string([]byte{c}) + hx, label: "backslash-char-then-hex-digits"})
 			}
 		}
 		for _, f := range followers {
@@ -110,8 +112,8 @@ func C16(r *drv.Run) {
 			if f == "x41" {
 				den = "xx41"
 			}
-			cases = append(cases, c16Case{lit, den, "malformed-hex"})
-			cases = append(cases, c16Case{string(q) + "a\\x" + f + string(q), "a" + den, "malformed-hex"})
+			cases = append(cases, c16Case{lit: lit, bytes: den, label: "malformed-hex"})
+			cases = append(cases, c16Case{lit: string(q) + "a\\x" + f + string(q), bytes: "a" + den, label: "malformed-hex"})
 		}
 	}
 	// literals as items of an `in` list, behind items of other kinds, spelling words of the language itself and the
@@ -133,7 +135,20 @@ func C16(r *drv.Run) {
 			if (c0 >= '0' && c0 <= '9' && (strings.Contains(before, "digit") || strings.Contains(before, "to"))) || (c0 == '#' && strings.Contains(before, "#")) || (c0 == ' ' && strings.Contains(before, "whitespace")) {
 				continue
 			}
-			cases = append(cases, c16Case{"in " + before + ", " + lit, w, "list-item-after-other-kinds"})
+			cases = append(cases, c16Case{lit: "in " + before + ", " + lit, bytes: w, label: "list-item-after-other-kinds"})
+		}
+	}
+	// a literal inside a group right next to a caseless literal: being caseless is a property of that one literal
+	for _, q := range []byte{'\'', '"'} {
+		for c := byte('A'); c <= 'z'; c++ {
+			if !(c >= 'A' && c <= 'Z') && !(c >= 'a' && c <= 'z') {
+				continue
+			}
+			for name, sp := range spellings(c, q) {
+				lit := string(q) + sp + "k" + string(q)
+				cases = append(cases, c16Case{lit: "(caseless 'q' " + lit + ")", bytes: "q" + string([]byte{c}) + "k", label: "in-group-after-caseless:" + name, lo: 1})
+				cases = append(cases, c16Case{lit: "(" + lit + " caseless 'q')", bytes: string([]byte{c}) + "kq", label: "in-group-before-caseless:" + name, hi: 2})
+			}
 		}
 	}
 	r.Extra["exhaustive_literals"] = len(cases)
@@ -162,11 +177,14 @@ func C16(r *drv.Run) {
 				den = append(den, c)
 			}
 			lit.WriteByte(q)
-			cs = c16Case{lit.String(), string(den), "random-mixed"}
+			cs = c16Case{lit: lit.String(), bytes: string(den), label: "random-mixed"}
 		}
 		b := []byte(cs.bytes)
 		texts := [][]byte{b}
 		for pos := range b {
+			if pos < cs.lo || (cs.hi > 0 && pos >= cs.hi) {
+				continue
+			}
 			alts := []byte{b[pos] + 1, b[pos] - 1, b[pos] ^ 0x20, byte(1 + rng.Intn(0x7f)), byte(1 + rng.Intn(0x7f)), byte(1 + rng.Intn(0x7f))}
 			for _, a := range alts {
 				if a == b[pos] || a == 0 || a >= 0x80 {
